@@ -303,7 +303,9 @@ PURGE_UNW70 = ["mi_arena_try_purge.2:70", "mi_arena_try_purge.0:70", "mi_arena_t
 def arena_expiry_ob(prefix):
     return [ar_ob(prefix + ".arenas_expiry.p%x_%x" % (p0, p1), "h_arenas_expiry", defines=["P0=0x%xul" % p0, "P1=0x%xul" % p1, "I0=0x%xul" % i0, "I1=0x%xul" % i1], unwind=4, unwindset=PURGE_UNW70, std_checks=False, cost=100,
                  funcs=EXP_FUNCS, bounds="2 arenas x 8 blocks, pending purge patterns %x/%x, concrete in-use patterns (committed, dirty, live bits symbolic), any expiries and clock, forced and non-forced collect" % (p0, p1))
-            for (p0, p1, i0, i1) in ((0x16, 0x0, 0x81, 0xff), (0x0, 0x6, 0x0, 0x90), (0x16, 0x61, 0x0, 0x0), (0x80, 0x3, 0x7f, 0xfc))]
+            for (p0, p1, i0, i1) in ((0x16, 0x0, 0x81, 0xff), (0x0, 0x6, 0x0, 0x90), (0x16, 0x61, 0x0, 0x0), (0x80, 0x3, 0x7f, 0xfc))] + [
+            ar_ob(prefix + ".arenas_expiry.three", "h_arenas_expiry", defines=["NARENA=3", "P0=0x6ul", "P1=0x18ul", "P2=0x81ul", "I0=0x1ul", "I1=0x0ul", "I2=0x10ul"], unwind=5, unwindset=PURGE_UNW70,
+                  std_checks=False, cost=100, funcs=EXP_FUNCS, bounds="3 arenas x 8 blocks with pending purges (a non-forced pass purges at most 2 arenas: the rest must stay scheduled)")]
 
 
 EXP_FUNCS = ["_mi_arenas_collect", "mi_arenas_try_purge", "mi_arena_try_purge", "mi_arena_purge_range", "mi_arena_purge", "_mi_bitmap_try_claim", "_mi_bitmap_unclaim", "_mi_bitmap_unclaim_across", "_mi_bitmap_is_claimed_across"]
